@@ -12,7 +12,7 @@ confirm.setdefault("C19-m1", {"suite_pass_fail": "255/0", "demo_rc_with_change":
 confirm.setdefault("C19-m2", {"suite_pass_fail": "255/0", "demo_rc_with_change": "1", "demo_rc_without": "0", "how": "bash run.sh in the scratch worktree"})
 sweep = {}
 if os.path.exists(V + "/work/sweep.log"):
-    for l in open(V + "/work/sweep.log"):
+    for l in open(V + "/work/sweep.log", errors="replace"):
         p = l.strip().split(" ", 2)
         if len(p) >= 2 and p[0].startswith("C"):
             sweep[p[0]] = {"result": p[1], "first_violation": p[2].strip() if len(p) > 2 else ""}
